@@ -7,6 +7,8 @@ import (
 	"go/token"
 	"go/types"
 	"math/big"
+	"reflect"
+	"sort"
 	"strings"
 )
 
@@ -918,10 +920,12 @@ func (x *Exec) assign(lhs ast.Expr, v Val, st *State) *State {
 			x.c.obligeAssume("idx", "", st.pc, tAnd(tLe("0", i), tLt(i, b.Len)), n.Pos(), "index in range: "+x.src(n))
 			x.frameStore(n.X, b, i, st, n.Pos())
 			nb := Sl{vStore(b.Arr, tAdd(b.Off, i), v), b.Off, b.Len, b.Nil, b.Elem}
+			x.havocAliases(st, b, n.X, "")
 			return x.assign(n.X, nb, st)
 		case Ar:
 			i := idx.(Sc).T
 			x.c.obligeAssume("idx", "", st.pc, tAnd(tLe("0", i), tLt(i, tInt(b.N))), n.Pos(), "index in range: "+x.src(n))
+			x.havocAliases(st, b, n.X, "")
 			return x.assign(n.X, Ar{vStore(b.Arr, i, v), b.N, b.Elem}, st)
 		case Mp:
 			k := encodeKey(idx)
@@ -935,6 +939,7 @@ func (x *Exec) assign(lhs ast.Expr, v Val, st *State) *State {
 				}
 			}
 			nm := Mp{tSto(b.Has, k, tTrue), vStore(b.Val, k, v), tIte(had, b.Len, tAdd(b.Len, "1")), b.K, b.V, b.KS, tFalse}
+			x.havocAliases(st, b, n.X, "")
 			return x.assign(n.X, nm, st)
 		}
 		panic(unsupported("store into %T", base))
@@ -961,6 +966,7 @@ func (x *Exec) assign(lhs ast.Expr, v Val, st *State) *State {
 		case Pt:
 			x.c.obligeAssume("nil", "", st.pc, tNot(b.Nil), n.Pos(), "nil dereference ."+n.Sel.Name)
 			ns := setField(b.Elem.(St), n.Sel.Name, v)
+			x.havocPtrAliases(st, b.T, x.rootObj(n.X))
 			return x.assign(n.X, Pt{b.Nil, ns, b.T}, st)
 		case Sc:
 			if k, tn := classify(bt); k == kRef {
@@ -987,6 +993,7 @@ func (x *Exec) assign(lhs ast.Expr, v Val, st *State) *State {
 			panic(unsupported("store through %T", p))
 		}
 		x.c.obligeAssume("nil", "", st.pc, tNot(pv.Nil), n.Pos(), "nil dereference")
+		x.havocPtrAliases(st, pv.T, x.rootObj(n.X))
 		return x.assign(n.X, Pt{pv.Nil, v, pv.T}, st)
 	case *ast.SliceExpr:
 		panic(unsupported("assignment to slice expression"))
@@ -1404,4 +1411,404 @@ func (x *Exec) stateChanged(a, b *State) bool {
 		}
 	}
 	return false
+}
+
+// ---- aliasing (DESIGN 3.3, 11.2 item 12) ----
+// Slices, arrays, maps and value-mode pointers are modelled as values. Two variables that share storage (t := s[1:], n := m,
+// q := p, s := buf[:]) are therefore two copies, and a write through one would not be seen through the other. The engine does
+// not track sharing precisely; instead every write havocs what any OTHER variable (or heap field) may see of the written
+// storage: for slices, arrays and maps the array-sorted leaves that mention one of the array constants of the written value,
+// for pointers the pointees of all other pointers of the same type. A read through a stale alias then yields an arbitrary value,
+// so nothing false can be proved from it (sound), and code that never reads the other alias after the write is unaffected.
+
+// rootObj: the variable an l-value or storage expression is rooted at.
+func (x *Exec) rootObj(e ast.Expr) types.Object {
+	for {
+		switch n := ast.Unparen(e).(type) {
+		case *ast.Ident:
+			if o := x.info.Uses[n]; o != nil {
+				return o
+			}
+			return x.info.Defs[n]
+		case *ast.IndexExpr:
+			e = n.X
+		case *ast.SliceExpr:
+			e = n.X
+		case *ast.StarExpr:
+			e = n.X
+		case *ast.SelectorExpr:
+			if sel := x.info.Selections[n]; sel == nil {
+				return x.info.Uses[n.Sel]
+			}
+			e = n.X
+		default:
+			return nil
+		}
+	}
+}
+
+// staleStorage returns v with every storage leaf of one of the given sorts replaced by a fresh constant. keepBelow != "":
+// the fresh array agrees with the old one at indices below keepBelow (append writes at or above the end of its operand).
+func (x *Exec) staleStorage(v Val, sorts map[string]bool, hint, keepBelow string) (Val, bool) {
+	changed := false
+	c := x.c
+	var rec func(v Val, storage bool) Val
+	rec = func(v Val, storage bool) Val {
+		switch n := v.(type) {
+		case Sc:
+			if storage && sorts[n.S] {
+				changed = true
+				f := c.fresh(hint, n.S)
+				if keepBelow != "" && strings.HasPrefix(n.S, "(Array Int") {
+					c.assumeDef(tForall([][2]string{{"i!s", SInt}}, tImp(tLt("i!s", keepBelow), tEq(tSel(f, "i!s"), tSel(n.T, "i!s"))), tSel(f, "i!s")))
+				}
+				return Sc{f, n.S}
+			}
+			return n
+		case Sl:
+			return Sl{rec(n.Arr, true), n.Off, n.Len, n.Nil, n.Elem}
+		case Ar:
+			return Ar{rec(n.Arr, true), n.N, n.Elem}
+		case Mp:
+			if sorts["map:"+n.KS] {
+				changed = true
+				nl := c.fresh(hint+".len", SInt)
+				c.assumeDef(tGe(nl, "0"))
+				nv := mapValSc(n.Val, func(s Sc) Sc { return Sc{c.fresh(hint, s.S), s.S} })
+				return Mp{c.fresh(hint, arrSort(n.KS, SBool)), nv, nl, n.K, n.V, n.KS, n.Nil}
+			}
+			return n
+		case St:
+			nf := make([]Val, len(n.F))
+			for i := range n.F {
+				nf[i] = rec(n.F[i], storage)
+			}
+			return St{nf, n.T}
+		case Pt:
+			return Pt{n.Nil, rec(n.Elem, storage), n.T}
+		case Tup:
+			ne := make([]Val, len(n.E))
+			for i := range n.E {
+				ne[i] = rec(n.E[i], storage)
+			}
+			return Tup{ne}
+		}
+		return v
+	}
+	out := rec(v, false)
+	return out, changed
+}
+
+// mapValSc applies f to every scalar leaf, keeping the shape.
+func mapValSc(v Val, f func(Sc) Sc) Val {
+	switch n := v.(type) {
+	case Sc:
+		return f(n)
+	case Sl:
+		return Sl{mapValSc(n.Arr, f), n.Off, n.Len, n.Nil, n.Elem}
+	case Ar:
+		return Ar{mapValSc(n.Arr, f), n.N, n.Elem}
+	case St:
+		nf := make([]Val, len(n.F))
+		for i := range n.F {
+			nf[i] = mapValSc(n.F[i], f)
+		}
+		return St{nf, n.T}
+	case Pt:
+		return Pt{n.Nil, mapValSc(n.Elem, f), n.T}
+	case Tup:
+		ne := make([]Val, len(n.E))
+		for i := range n.E {
+			ne[i] = mapValSc(n.E[i], f)
+		}
+		return Tup{ne}
+	}
+	return v
+}
+
+// storageSorts: the SMT sorts of the storage leaves of v.
+func storageSorts(v Val) map[string]bool {
+	out := map[string]bool{}
+	var rec func(v Val, storage bool)
+	rec = func(v Val, storage bool) {
+		switch n := v.(type) {
+		case Sc:
+			if storage {
+				out[n.S] = true
+			}
+		case Sl:
+			rec(n.Arr, true)
+		case Ar:
+			rec(n.Arr, true)
+		case Mp:
+			out["map:"+n.KS] = true
+		case St:
+			for _, f := range n.F {
+				rec(f, storage)
+			}
+		case Pt:
+			rec(n.Elem, storage)
+		}
+	}
+	rec(v, false)
+	return out
+}
+
+// havocAliases: after a write into the storage of `written` (its value before the write) through the l-value or operand
+// `target`, what the variables that may share that storage (alias.go) see of it is arbitrary: their storage leaves of the
+// written sorts are replaced by fresh constants. The variable the write goes through gets the new value from the caller.
+func (x *Exec) havocAliases(st *State, written Val, target ast.Expr, keepBelow string) {
+	root := x.rootObj(target)
+	if root == nil {
+		return
+	}
+	sorts := storageSorts(written)
+	if len(sorts) == 0 {
+		return
+	}
+	objs := x.sharers(st, root)
+	// the variable the write goes through: other paths inside it may share the written storage only if the function lets
+	// two of its paths share (alias.go: self); the operand of an append keeps its own view of the storage, which the
+	// append may overwrite at or above the operand's end
+	if x.c.alias.self[root] {
+		objs = append(objs, root)
+	} else if keepBelow != "" {
+		if rv, ok := st.vars[root]; ok {
+			exact := map[string]bool{}
+			for _, l := range storageLeaves(written) {
+				exact[l] = true
+			}
+			if nv, ch := x.staleExact(rv, exact, "alias."+root.Name(), keepBelow); ch {
+				st.vars[root] = nv
+			}
+		}
+	}
+	for _, o := range objs {
+		if nv, ch := x.staleStorage(st.vars[o], sorts, "alias."+o.Name(), keepBelow); ch {
+			st.vars[o] = nv
+			x.c.notes = append(x.c.notes, "write into storage that "+o.Name()+" may share ("+x.c.posOf(target)+"): "+o.Name()+"'s view of it is arbitrary afterwards")
+		}
+	}
+	// storage copied out of a field of a heap object and written through the copy: the heap component is stale
+	// (a write that goes through the field itself is a store into the heap component, which the heap model handles)
+	if x.c.alias.same(root, x.c.alias.heapObj) && !x.throughHeap(target) {
+		var hk []string
+		for k := range st.heap {
+			hk = append(hk, k)
+		}
+		sort.Strings(hk)
+		for _, k := range hk {
+			if nv, ch := x.staleStorage(st.heap[k], sorts, "alias.heap", keepBelow); ch {
+				st.heap[k] = nv
+			}
+		}
+	}
+}
+
+// havocPtrAliases: after a store through a value-mode pointer to T, the pointee of every other pointer to T that may
+// equal it (alias.go: same may-share class) is arbitrary.
+func (x *Exec) havocPtrAliases(st *State, T types.Type, except types.Object) {
+	objs := x.sharers(st, except)
+	for _, o := range objs {
+		changed := false
+		var rec func(v Val) Val
+		rec = func(v Val) Val {
+			switch n := v.(type) {
+			case Pt:
+				if types.Identical(n.T, T) {
+					changed = true
+					return Pt{n.Nil, x.keepObjs(n.Elem, x.c.freshVal("alias."+o.Name(), n.T, nil), "alias."+o.Name()), n.T}
+				}
+				return Pt{n.Nil, rec(n.Elem), n.T}
+			case St:
+				nf := make([]Val, len(n.F))
+				for i := range n.F {
+					nf[i] = rec(n.F[i])
+				}
+				return St{nf, n.T}
+			}
+			return v
+		}
+		nv := rec(st.vars[o])
+		if changed {
+			st.vars[o] = nv
+			x.c.notes = append(x.c.notes, "store through a pointer that "+o.Name()+" may equal: "+o.Name()+"'s pointee is arbitrary afterwards")
+		}
+	}
+}
+
+// throughHeap: the storage expression reaches its storage through a field of a heap object.
+func (x *Exec) throughHeap(e ast.Expr) bool {
+	for {
+		switch n := ast.Unparen(e).(type) {
+		case *ast.IndexExpr:
+			e = n.X
+		case *ast.SliceExpr:
+			e = n.X
+		case *ast.StarExpr:
+			e = n.X
+		case *ast.SelectorExpr:
+			if sel := x.info.Selections[n]; sel == nil {
+				return false
+			}
+			if k, _ := classify(x.typeOf(n.X)); k == kRef {
+				return true
+			}
+			e = n.X
+		default:
+			return false
+		}
+	}
+}
+
+// havocLoopAliases: the loop-head counterpart of havocAliases. Every variable whose storage the loop writes (element
+// stores, append, copy, delete, in-place sorts) may be shared with other variables; what those see of it is arbitrary at the
+// loop head (the written variables themselves are havocked by the ordinary loop rule). Likewise for stores through pointers.
+func (x *Exec) havocLoopAliases(entry, head *State, nodes ...ast.Node) {
+	var targets []ast.Expr
+	var ptrTargets []ast.Expr
+	note := func(e ast.Expr) {
+		if e != nil {
+			targets = append(targets, e)
+		}
+	}
+	var lhs func(e ast.Expr)
+	lhs = func(e ast.Expr) {
+		switch n := ast.Unparen(e).(type) {
+		case *ast.IndexExpr:
+			note(n.X)
+			lhs(n.X)
+		case *ast.SelectorExpr:
+			if sel := x.info.Selections[n]; sel != nil {
+				if _, isPtr := x.typeOf(n.X).Underlying().(*types.Pointer); isPtr {
+					if k, _ := classify(x.typeOf(n.X)); k != kRef {
+						ptrTargets = append(ptrTargets, n.X)
+					}
+				}
+				lhs(n.X)
+			}
+		case *ast.StarExpr:
+			ptrTargets = append(ptrTargets, n.X)
+			lhs(n.X)
+		}
+	}
+	for _, nd := range nodes {
+		if nd == nil || (reflect.ValueOf(nd).Kind() == reflect.Ptr && reflect.ValueOf(nd).IsNil()) {
+			continue
+		}
+		ast.Inspect(nd, func(n ast.Node) bool {
+			switch s := n.(type) {
+			case *ast.FuncLit:
+				return false
+			case *ast.AssignStmt:
+				for _, l := range s.Lhs {
+					lhs(l)
+				}
+			case *ast.IncDecStmt:
+				lhs(s.X)
+			case *ast.CallExpr:
+				if id, ok := ast.Unparen(s.Fun).(*ast.Ident); ok && len(s.Args) > 0 {
+					if _, isB := x.info.Uses[id].(*types.Builtin); isB && (id.Name == "append" || id.Name == "copy" || id.Name == "delete") {
+						note(s.Args[0])
+					}
+				}
+				if se, ok := ast.Unparen(s.Fun).(*ast.SelectorExpr); ok && len(s.Args) > 0 {
+					if pid, ok := ast.Unparen(se.X).(*ast.Ident); ok {
+						if pn, ok := x.info.Uses[pid].(*types.PkgName); ok && (pn.Imported().Path() == "sort" || pn.Imported().Path() == "slices") {
+							note(s.Args[0])
+						}
+					}
+				}
+			}
+			return true
+		})
+	}
+	for _, t := range targets {
+		root := x.rootObj(t)
+		if root == nil {
+			continue
+		}
+		v, ok := entry.vars[root]
+		if !ok {
+			continue
+		}
+		sorts := storageSorts(v)
+		if len(sorts) == 0 {
+			continue
+		}
+		for _, o := range x.sharers(head, root) {
+			if nv, ch := x.staleStorage(head.vars[o], sorts, "alias."+o.Name(), ""); ch {
+				head.vars[o] = nv
+				x.c.notes = append(x.c.notes, "loop writes into storage that "+o.Name()+" may share ("+x.c.posOf(t)+"): "+o.Name()+"'s view of it is arbitrary at the loop head")
+			}
+		}
+	}
+	for _, t := range ptrTargets {
+		root := x.rootObj(t)
+		pt, ok := x.typeOf(t).Underlying().(*types.Pointer)
+		if !ok {
+			continue
+		}
+		x.havocPtrAliases(head, pt.Elem(), root)
+	}
+}
+
+// storageLeaves: the terms of the storage leaves of v.
+func storageLeaves(v Val) []string {
+	var out []string
+	var rec func(v Val, storage bool)
+	rec = func(v Val, storage bool) {
+		switch n := v.(type) {
+		case Sc:
+			if storage {
+				out = append(out, n.T)
+			}
+		case Sl:
+			rec(n.Arr, true)
+		case Ar:
+			rec(n.Arr, true)
+		case St:
+			for _, f := range n.F {
+				rec(f, storage)
+			}
+		case Pt:
+			rec(n.Elem, storage)
+		}
+	}
+	rec(v, false)
+	return out
+}
+
+// staleExact: like staleStorage, for the storage leaves that are literally one of the given terms.
+func (x *Exec) staleExact(v Val, terms map[string]bool, hint, keepBelow string) (Val, bool) {
+	changed := false
+	c := x.c
+	var rec func(v Val, storage bool) Val
+	rec = func(v Val, storage bool) Val {
+		switch n := v.(type) {
+		case Sc:
+			if storage && terms[n.T] && strings.HasPrefix(n.S, "(Array Int") {
+				changed = true
+				f := c.fresh(hint, n.S)
+				c.assumeDef(tForall([][2]string{{"i!s", SInt}}, tImp(tLt("i!s", keepBelow), tEq(tSel(f, "i!s"), tSel(n.T, "i!s"))), tSel(f, "i!s")))
+				return Sc{f, n.S}
+			}
+			return n
+		case Sl:
+			return Sl{rec(n.Arr, true), n.Off, n.Len, n.Nil, n.Elem}
+		case Ar:
+			return Ar{rec(n.Arr, true), n.N, n.Elem}
+		case St:
+			nf := make([]Val, len(n.F))
+			for i := range n.F {
+				nf[i] = rec(n.F[i], storage)
+			}
+			return St{nf, n.T}
+		case Pt:
+			return Pt{n.Nil, rec(n.Elem, storage), n.T}
+		}
+		return v
+	}
+	out := rec(v, false)
+	return out, changed
 }
